@@ -9,14 +9,14 @@ Ltac mcases m H :=
   destruct m as [|m]; [injection H as <-|destruct m; discriminate H].
 
 Definition cx_cfg : config :=
-  {| cf_size := Fin 1; cf_kind := KTask; cf_bad := false; cf_w := default_w;
+  {| cf_size := Fin 1; cf_kind := KTask; cf_bad := []; cf_w := default_w;
      cf_ecb := CbNone; cf_ccb := CbNone |}.
 
 (** ** 1. A map consumer at its iterator's user point whose group was cancelled earlier, with a
     cancellation pending ([m_mc]) and [taint_iter = false]: [continue_m] ignores [m_mc] and
     creates a task. *)
 Definition cxd_y : mtask :=
-  mk_mtask (MMap 0) (GUser 0) 0 false [{| e_bad := false; e_w := default_w |}] default_w
+  mk_mtask (MMap 0) (GUser 0) 0 [] [{| e_bad := false; e_w := default_w |}] default_w
            CbNone CbNone MAtIter 0 None true None 1 false 0 true 1.
 
 Definition cxd_s : state :=
@@ -100,7 +100,7 @@ Qed.
 (** ** 2. An (unstarted, already dead) spawner of group [user-0] filed under [gmeta[user-1]]:
     cancelling group [user-1] requests its cancellation too. *)
 Definition cxc_y : mtask :=
-  mk_mtask MApply (GUser 0) 1 false [] default_w CbNone CbNone MNotStarted 0 None
+  mk_mtask MApply (GUser 0) 1 [] [] default_w CbNone CbNone MNotStarted 0 None
            false None 0 false 0 true 0.
 
 Definition cxc_s : state :=
